@@ -178,3 +178,47 @@ pub fn threshold_sizes(thorough: bool) -> Vec<usize> {
         vec![8, 9, 10, 16, 17, 32, 33, 64, 65, 100, 129, 257]
     }
 }
+
+/// big end lists around size thresholds: 1..n, centred lists containing +0.0 / -0.0, and variants with duplicate runs;
+/// for a few sizes also every list with a single duplicated end at each position
+pub fn big_shapes(thorough: bool, cap: usize) -> Vec<Vec<f64>> {
+    let mut out = vec![];
+    for n in threshold_sizes(thorough) {
+        if n > cap {
+            continue;
+        }
+        let base = iota(n);
+        out.push(base.clone());
+        let centred: Vec<f64> = (0..n).map(|i| i as f64 - (n / 2) as f64).collect(); // contains +0.0
+        out.push(centred.clone());
+        out.push(centred.iter().map(|&v| if v == 0.0 { -0.0 } else { v }).collect());
+        for (period, run) in [(5usize, 2usize), (7, 3), (11, 5)] {
+            let mut d = base.clone();
+            let mut i = period;
+            while i + run <= n {
+                for k in 1..run {
+                    d[i + k] = d[i];
+                }
+                i += period + run;
+            }
+            d.sort_by(|a, b| a.partial_cmp(b).unwrap());
+            out.push(d);
+        }
+        let mut d = base.clone();
+        for i in n / 3..(n / 3 + n / 4).min(n) {
+            d[i] = d[n / 3];
+        }
+        out.push(d);
+    }
+    for n in [33usize, 34, 65, 66].into_iter().chain(if thorough { vec![100usize, 129] } else { vec![] }) {
+        if n > cap {
+            continue;
+        }
+        for pos in 1..n {
+            let mut d = iota(n);
+            d[pos] = d[pos - 1];
+            out.push(d);
+        }
+    }
+    out
+}
